@@ -10,6 +10,9 @@
 // for a generated neutral request in a random lexical form; it is sent as a
 // REPORT to the real caldav.Handler in front of a recording backend; what the
 // backend receives must equal the neutral request.
+//
+// client→backend (e2e.go): both halves as one journey through net/http, with
+// 307/308 redirects on the road.
 package c08
 
 import (
@@ -311,6 +314,21 @@ func (d *differ) list(field string, want, got []string) {
 			trans = "reordered"
 		}
 	}
+	if len(want)+len(got) > 60 {
+		// long lists: say where they part instead of printing them
+		i := 0
+		for i < len(want) && i < len(got) && want[i] == got[i] {
+			i++
+		}
+		at := func(l []string) string {
+			if i < len(l) {
+				return fmt.Sprintf("%q", l[i])
+			}
+			return "nothing (the list has ended)"
+		}
+		d.add(field, trans, "want %d entries, got %d; they agree on the first %d, then want %s, got %s", len(want), len(got), i, at(want), at(got))
+		return
+	}
 	d.add(field, trans, "want %q, got %q", want, got)
 }
 
@@ -551,15 +569,22 @@ func hrefBucket(n int) string {
 		return "2-5"
 	case n < 20:
 		return "6-19"
+	case n == 20:
+		return "20"
+	case n <= 1000:
+		return "21-1000"
 	}
-	return "20"
+	return "over 1000"
 }
 
 // classOf is the abstract key counted in distinct_nontrivial.
 func classOf(cs *Case) string {
 	var sb strings.Builder
 	sb.WriteString(cs.Dir + "|" + cs.Req.Kind + "|" + cs.Req.Prop.Form + "|" + dataClass(cs.Req.Prop.Data))
-	if cs.Dir == dirCW {
+	if cs.Dir == dirCB {
+		fmt.Fprintf(&sb, "|hops=%d|net=%s", len(cs.Hops), cs.Net)
+	}
+	if cs.Dir == dirCW || cs.Dir == dirCB {
 		zm := cs.ZoneMode
 		if strings.HasPrefix(zm, "fixed:") {
 			zm = "fixed"
@@ -1216,6 +1241,8 @@ func exec(c *xctx, cs *Case) {
 		execCW(c, cs)
 	case dirWB:
 		execWB(c, cs)
+	case dirCB:
+		execE2E(c, cs)
 	}
 }
 
@@ -1242,6 +1269,13 @@ func run(fc *fw.Ctx) {
 			continue
 		}
 		exec(c, genWB(fc.Rand("c08-wb", i)))
+	}
+	// client→backend: the whole journey through net/http, with redirects.
+	ne := fc.Pick(4000, 50000)
+	for i := 0; i < ne; i++ {
+		if fc.Mine(i) {
+			exec(c, genE2E(fc.Rand("c08-e2e", i)))
+		}
 	}
 	// Overlap families: several requests in flight through one Client / one
 	// Handler.
@@ -1326,11 +1360,15 @@ func init() {
 				x.flush()
 			}
 		},
-		Rule: "overlap families: K=2..8 different requests in flight together at GOMAXPROCS 1/2/4/8 - client→wire: K goroutines call QueryCalendar/MultiGetCalendar on ONE caldav.Client whose HTTP client parks every request " +
+		Rule: "client→backend family: generated CalendarQuery / CalendarMultiGet values are given to the real caldav.Client over a real net/http *http.Client (in-process round tripper, or a real http.Transport and http.Server joined by net.Pipe); " +
+			"the addressed URL answers directly or with one or two 307/308 redirects (Location as absolute path or absolute URL) before the request arrives at the real caldav.Handler in front of a recording backend; " +
+			"the backend must receive the caller's request (query filter and selection field by field, multiget paths in order with the selection), and a request that arrives when asked directly must also arrive across the redirects. " +
+			"multiget href lists: 0..20 mostly, 99..513 in 1/25 and 999..10001 in 1/120 of the multigets of every family. " +
+			"overlap families: K=2..8 different requests in flight together at GOMAXPROCS 1/2/4/8 - client→wire: K goroutines call QueryCalendar/MultiGetCalendar on ONE caldav.Client whose HTTP client parks every request " +
 			"until all K have been built, then reads the bodies in a seeded order; each body (attributed by its unique request target) must decode to the same request as the body the same call sends alone; " +
 			"wire→backend: K REPORTs served concurrently by ONE caldav.Handler whose backend parks the first call of each request until all K are inside, and each request must deliver what it delivers alone. " +
 			"client→wire: generated CalendarQuery / CalendarMultiGet values (filter trees of depth <= 4 and fan-out <= 3, every flag, names/texts with blanks, XML metacharacters and non-ASCII, " +
-			"instants in UTC and in fixed zones of -14h..+14h with and without sub-second parts, open starts/ends, expansion ranges, component/property selections, 0..20 hrefs with hostile names) are given to the real " +
+			"instants in UTC and in fixed zones of -14h..+14h with and without sub-second parts, open starts/ends, expansion ranges, component/property selections, hrefs with hostile names) are given to the real " +
 			"caldav.Client over a capturing HTTP client; the captured REPORT body is read by the independent RFC 4791 reader (namespaces, names, DTD child order, value grammars) and the decoded request is compared " +
 			"field by field with the caller's. wire→backend: the independent RFC 4791 writer renders a neutral request in a random lexical form (prefixes, default namespaces, attribute order, white space, comments, " +
 			"CDATA, character references, empty-element forms); it is sent as REPORT to the real caldav.Handler in front of a recording backend whose received CalendarQuery / paths / CalendarCompRequest are " +
@@ -1344,6 +1382,8 @@ func init() {
 			"calendar-multiget Depth header and the extra DAV properties the client asks for (getetag, getlastmodified) are not judged",
 			"wire→backend: when the document requests no calendar-data, or a calendar-data without comp, the backend's CalendarCompRequest comp fields are not compared (semantics 'everything'); timezone, limit-recurrence-set, limit-freebusy-set, collation, novalue, content-type/version are varied on the wire but not compared",
 			"overlap families: nothing in the statement restricts a Client or Handler to one request at a time; the barrier opens when every member is parked or has returned (no wall-clock); the solo run of the same call is the reference, and is itself judged by the ordinary oracle",
+			"client→backend: only 307 and 308 are used (net/http itself turns a REPORT into a GET on 301/302/303); object names are absolute; the response the client makes of the server's answer is not judged here (C10); the zero selection's reading by the server is not compared",
+			"the client endpoint varies (with and without a base path, trailing slash, user information); collection paths are absolute, so the request target is the collection path whatever the endpoint; how a relative collection path is resolved against the endpoint is not judged (the statement is silent)",
 			"the writer's output is cross-checked by the reader before every wire→backend case (disagreement = inconclusive, never a finding)",
 		},
 		MinEvals:    func(t string) int64 { return 8000 },
